@@ -4,6 +4,7 @@ import (
 	"errors"
 	"fmt"
 	"math/rand"
+	"strings"
 	"sync"
 	"time"
 
@@ -58,8 +59,13 @@ func c05GenSeq(rg *rand.Rand, s int) []c05Pkt {
 	for len(seq) < n {
 		r := rg.Intn(100)
 		switch {
-		case r < 12:
+		case r < 6:
 			seq = append(seq, c05Pkt{Kind: "P0", Tag: newTag()})
+		case r < 12:
+			// retain flag + empty payload (clears the retained slot AND is a message): recognised by its topic
+			nextID++
+			tagN++
+			seq = append(seq, c05Pkt{Kind: "P1e", ID: nextID, Tag: fmt.Sprintf("topic:_default/c05/e-%d-%d", s, tagN)})
 		case r < 35:
 			nextID++
 			seq = append(seq, c05Pkt{Kind: "P1", ID: nextID, Tag: newTag()})
@@ -91,6 +97,14 @@ func c05GenSeq(rg *rand.Rand, s int) []c05Pkt {
 }
 
 var errInjected = errors.New("injected log write failure")
+
+// c05RecTag identifies a log record: by its payload, or by its topic when the payload is empty.
+func c05RecTag(r kit.AppendRecord) string {
+	if len(r.Payload) == 0 {
+		return "topic:" + r.Topic
+	}
+	return string(r.Payload)
+}
 
 type c05Result struct {
 	localAttempts int
@@ -232,6 +246,11 @@ func c05Run(c *fw.Ctx, s int, nNodes int, seq []c05Pkt, fault c05Fault) c05Resul
 			if !expectForward(p.Tag, kit.PUBACK, p.ID, from) {
 				return res
 			}
+		case "P1e":
+			pub.Send(kit.EncPublish(strings.TrimPrefix(p.Tag, "topic:_default/"), nil, 1, true, false, p.ID))
+			if !expectForward(p.Tag, kit.PUBACK, p.ID, from) {
+				return res
+			}
 		case "P2":
 			pub.Send(kit.EncPublish("c05/t", []byte(p.Tag), 2, false, false, p.ID))
 			if _, _, err := pub.WaitFor(from, kit.DefaultWait, func(e kit.Event) bool { return e.Pkt.Type == kit.PUBREC && e.Pkt.ID == p.ID }); err != nil {
@@ -311,7 +330,7 @@ func c05Run(c *fw.Ctx, s int, nNodes int, seq []c05Pkt, fault c05Fault) c05Resul
 		for ni, n := range nodes {
 			stored := false
 			for _, r := range n.Log.Records() {
-				if string(r.Payload) == f.tag && r.Err == nil && r.SeqRet < ackSeq {
+				if c05RecTag(r) == f.tag && r.Err == nil && r.SeqRet < ackSeq {
 					stored = true
 				}
 			}
@@ -323,7 +342,7 @@ func c05Run(c *fw.Ctx, s int, nNodes int, seq []c05Pkt, fault c05Fault) c05Resul
 	// (b) append attempts per tag on the publisher's node = expected forwardings (QoS 2: completed handshakes)
 	got := map[string]int{}
 	for _, r := range nodes[0].Log.Records() {
-		got[string(r.Payload)]++
+		got[c05RecTag(r)]++
 	}
 	allTags := map[string]bool{}
 	for _, p := range seq {
@@ -509,7 +528,7 @@ func c05Reuse(c *fw.Ctx, i int) {
 
 func runC05(c *fw.Ctx) {
 	c.Level = "fault_enumeration"
-	c.Rule = "seeded packet sequences of 3-8 packets from a publisher (PUBLISH QoS 0/1/2 with fresh identifiers, PUBREL for a pending identifier, repeated PUBREL for a completed one, forced handshake-timeout sweep, repeated PUBLISH for a pending identifier as last packet) on 1-3 nodes that all host a matching subscriber, while a second client on the same node holds unreleased QoS 2 publishes with the same packet identifiers; for each sequence EVERY single fault position is run on a fresh cluster: none, the k-th local log write fails for every k up to the number of writes of the fault-free run, each remote node unreachable, each remote node's log rejecting writes (thorough: also local x remote combinations). Observed with one global sequence counter: Append call/return per node, RPC call/return, packets read by the publisher. Oracle: an acknowledgement (PUBACK/PUBCOMP) is read only after a successful Append returned on every node, and never when a write failed; log offers per tag = completed PUBLISH->PUBREL handshakes (0 after PUBLISH alone or after a timed-out handshake, 1 after PUBREL, still 1 after repeated PUBREL). Gated scenarios: no acknowledgement while the log write is blocked. Identifier-reuse scenarios: a second QoS 2 publish reusing a completed handshake's identifier 1.5 s later survives a sweep placed between the two deadlines. distinct = (nodes, sequence, fault); non-trivial = sequence contains a QoS>=1 forwarding"
+	c.Rule = "seeded packet sequences of 3-8 packets from a publisher (PUBLISH QoS 0/1/2 with fresh identifiers, QoS 1 with the retain flag and an empty payload, PUBREL for a pending identifier, repeated PUBREL for a completed one, forced handshake-timeout sweep, repeated PUBLISH for a pending identifier as last packet) on 1-3 nodes that all host a matching subscriber, while a second client on the same node holds unreleased QoS 2 publishes with the same packet identifiers; for each sequence EVERY single fault position is run on a fresh cluster: none, the k-th local log write fails for every k up to the number of writes of the fault-free run, each remote node unreachable, each remote node's log rejecting writes (thorough: also local x remote combinations). Observed with one global sequence counter: Append call/return per node, RPC call/return, packets read by the publisher. Oracle: an acknowledgement (PUBACK/PUBCOMP) is read only after a successful Append returned on every node, and never when a write failed; log offers per tag = completed PUBLISH->PUBREL handshakes (0 after PUBLISH alone or after a timed-out handshake, 1 after PUBREL, still 1 after repeated PUBREL). Gated scenarios: no acknowledgement while the log write is blocked. Identifier-reuse scenarios: a second QoS 2 publish reusing a completed handshake's identifier 1.5 s later survives a sweep placed between the two deadlines. distinct = (nodes, sequence, fault); non-trivial = sequence contains a QoS>=1 forwarding"
 	c.Assume("every node hosts a matching subscription known to the publisher's node (gossip barrier)")
 	c.Assume("a session dropped by the broker after a repeated PUBLISH for a pending identifier is accepted; nothing may be forwarded for it")
 	nSeq := c.Pick(36, 500)
@@ -533,7 +552,7 @@ func runC05(c *fw.Ctx) {
 				r := c05Run(c, j.s, j.nNodes, j.seq, j.fault)
 				nt := false
 				for _, p := range j.seq {
-					if p.Kind == "P1" || p.Kind == "R" {
+					if p.Kind == "P1" || p.Kind == "R" || p.Kind == "P1e" {
 						nt = true
 					}
 				}
